@@ -1,5 +1,6 @@
 (* C19 — assembling is a pure function of the source text (given the documented reset). *)
-From Lace Require Import Word Asm AsmFeat.
+From Coq Require Import List.
+From Lace Require Import Word Asm AsmFeat Cli Watch.
 
 (** In the model the only state that survives an assembly is the symbol table, threaded
     explicitly; the documented reset empties it.  Whatever was assembled before (valid, failing in
@@ -17,3 +18,9 @@ Theorem C19_needs_reset :
   fst (assemble false (snd (assemble false [] a)) a) <> fst (assemble false [] a).
 Proof. exact needs_reset. Qed.
 Print Assumptions C19_needs_reset.
+
+(** "This is what makes every re-check of `lace watch` equivalent to a fresh `lace check`": the
+    watcher of Watch.v, for every sequence of file versions. *)
+Theorem C19_watch : forall feat versions, watch feat nil versions = List.map (check_exit feat) versions.
+Proof. exact watch_is_check. Qed.
+Print Assumptions C19_watch.
